@@ -1,9 +1,13 @@
 package main
 
 import (
+	"bufio"
+	"encoding/json"
 	"fmt"
 	"os"
+	"os/exec"
 	"path/filepath"
+	"strconv"
 	"strings"
 	"syscall"
 	"time"
@@ -41,6 +45,13 @@ func c07Main(args []string) error {
 	os.WriteFile(filepath.Join(e.BinDir, "noexec"), []byte("#!/bin/true\n"), 0644)
 	os.WriteFile(filepath.Join(e.BinDir, "garbage"), []byte("\x01\x02\x03 this is not an executable format\n"), 0755)
 	for _, c := range cases {
+		if c.Crash != "" {
+			w.Write(crashCase(e, c))
+			if !keepDirs {
+				os.RemoveAll(fmt.Sprintf("%s/case-%d", e.Scratch, c.ID))
+			}
+			continue
+		}
 		p := c07Plan(e, c)
 		ob := launchOne(e, p)
 		w.Write(ob)
@@ -170,3 +181,131 @@ func c07Plan(e *Env, c Case) *plan {
 }
 
 func c07cMain(args []string) error { return c07cRun(args) }
+
+// c07h <scratch> <probe> <case.json> : the helper launcher process of the launcher-death cases.  It
+// performs ONE launch whose SyncFunc announces the child's pid on stdout and then never returns: it
+// exits the whole process (crash = "exit") or blocks until the driver SIGKILLs the process ("kill").
+// Either way the sync socket closes without an ack and nobody kills the child.
+func c07hMain(args []string) error {
+	if len(args) < 3 {
+		return fmt.Errorf("usage: c07h scratch probe case.json")
+	}
+	cs, err := hx.ReadLines[Case](args[2])
+	if err != nil || len(cs) != 1 {
+		return fmt.Errorf("bad case file: %v", err)
+	}
+	c := cs[0]
+	e := &Env{Scratch: args[0], Probe: args[1], BinDir: filepath.Dir(args[1])}
+	e.SelfExe, _ = os.Readlink("/proc/self/exe")
+	p := c07Plan(e, c)
+	p.cbDelay = 0
+	p.cbHook = func(pid int) {
+		fmt.Printf("CB %d\n", pid)
+		os.Stdout.Sync()
+		if c.Crash == "exit" {
+			os.Exit(0)
+		}
+		select {}
+	}
+	ob := launchOne(e, p)
+	fmt.Printf("RETURNED %v %s %s\n", ob.Started, ob.Err.Msg, ob.Setup)
+	return nil
+}
+
+// crashCase runs one launcher-death case: helper launcher dies inside its callback, the child is an
+// orphan; give it time, look for the marker and for the orphan, then clean up by nonce.
+func crashCase(e *Env, c Case) Obs {
+	ob := Obs{Ev: "Observe", ID: c.ID, Opt: c.Opt, Fail: c.Fail, Idx: c.Idx, CbRes: c.Cb, Crash: c.Crash, Self: emptySelf(),
+		Out: Outside{NS: nsMap(func(string) string { return "" })}, PNS: nsOf("self"), PIDs: []int{os.Getuid(), os.Getgid()},
+		PGroups: []int{}, Stops: []string{}, Exit: "none", Orphan: "gone", DPid: os.Getpid()}
+	ob.Req.Groups = []int{}
+	ob.Cb.NSpidN = []int{}
+	dir := filepath.Join(e.Scratch, fmt.Sprintf("case-%d", c.ID)) // the nonce: part of every involved command line
+	os.MkdirAll(dir, 0755)
+	cf := filepath.Join(dir, "case.json")
+	b, _ := json.Marshal(c)
+	os.WriteFile(cf, append(b, '\n'), 0644)
+	marker := filepath.Join(dir, "wd", "marker")
+	cmd := exec.Command(e.SelfExe, "c07h", e.Scratch, e.Probe, cf)
+	cmd.Stderr = os.Stderr
+	out, err := cmd.StdoutPipe()
+	if err != nil {
+		ob.Setup = err.Error()
+		return ob
+	}
+	if err := cmd.Start(); err != nil {
+		ob.Setup = "helper: " + err.Error()
+		return ob
+	}
+	lineCh := make(chan string, 1)
+	go func() {
+		l, _ := bufio.NewReader(out).ReadString('\n')
+		lineCh <- l
+	}()
+	var line string
+	select {
+	case line = <-lineCh:
+	case <-time.After(30 * time.Second):
+	}
+	child := 0
+	if strings.HasPrefix(line, "CB ") {
+		child, _ = strconv.Atoi(strings.TrimSpace(line[3:]))
+		ob.Cb.Called = 1
+		ob.Cb.Pid = child
+	}
+	if c.Crash == "kill" || child == 0 {
+		cmd.Process.Kill()
+	}
+	cmd.Wait()
+	// the child is an orphan now; a child that saw EOF is gone within milliseconds, one that took EOF for
+	// approval has exec'd within milliseconds: wait until it is gone, at most 1.5 s
+	alive := func() string {
+		if child == 0 {
+			return "gone"
+		}
+		st, err := os.ReadFile(fmt.Sprintf("/proc/%d/status", child))
+		cl, _ := os.ReadFile(fmt.Sprintf("/proc/%d/cmdline", child))
+		if err != nil || !strings.Contains(string(cl), dir) {
+			return "gone"
+		}
+		state := strings.SplitN(statusField(string(st), "State"), " ", 2)[0]
+		if state == "Z" || state == "X" {
+			return "gone"
+		}
+		exe, _ := os.Readlink(fmt.Sprintf("/proc/%d/exe", child))
+		is := "other"
+		if exe == e.SelfExe {
+			is = "launcher"
+		} else if exe == e.Probe {
+			is = "target"
+		}
+		return "alive:" + state + ":" + is
+	}
+	deadline := time.Now().Add(1500 * time.Millisecond)
+	time.Sleep(20 * time.Millisecond)
+	for {
+		ob.Orphan = alive()
+		if ob.Orphan == "gone" || time.Now().After(deadline) {
+			break
+		}
+		if strings.HasSuffix(ob.Orphan, ":target") {
+			ob.Cb.ExeIs = "target"
+		}
+		time.Sleep(10 * time.Millisecond)
+	}
+	_, e1 := os.Lstat(marker)
+	ob.Marker = e1 == nil
+	// clean up by nonce: every process whose command line mentions this case's directory
+	ents, _ := os.ReadDir("/proc")
+	for _, d := range ents {
+		pid, err := strconv.Atoi(d.Name())
+		if err != nil || pid == os.Getpid() {
+			continue
+		}
+		cl, _ := os.ReadFile("/proc/" + d.Name() + "/cmdline")
+		if strings.Contains(string(cl), dir) {
+			unix.Kill(pid, unix.SIGKILL)
+		}
+	}
+	return ob
+}
